@@ -242,17 +242,19 @@ class _P:
             if c == 0x20:
                 self.i += 1
                 if self.peek() == 0x29:
-                    self.diag.append("space before ')'")
+                    raise WireError("syntax", "SP before ')'", self.i, self.b[max(0, self.i - 30) : self.i + 4])
                 continue
             if c == 0x28:
-                # adjacent lists without SP: legal only between body parts
+                # adjacent lists without SP: legal only between body parts (1*body) and between addresses (1*address)
+                if not (getattr(self, "adjacent_ok", False) and isinstance(out[-1], list)):
+                    raise WireError("syntax", "'(' follows a value without SP", self.i, self.b[max(0, self.i - 30) : self.i + 10])
                 self.diag.append("adjacent lists without SP")
                 continue
             if c in (0x0D, 0x0A):
                 raise WireError("parens", "response ended inside a parenthesised list", self.i, self.b[max(0, self.i - 40) : self.i + 4])
             if c == 0x22:
-                self.diag.append("missing SP before quoted string")
-                continue
+                # (RFC 3501: every two values of a list are separated by SP; '1*body SP media-subtype' in particular)
+                raise WireError("syntax", "quoted string follows a value without SP", self.i, self.b[max(0, self.i - 30) : self.i + 10])
             if isinstance(out[-1], QStr):
                 raise WireError("quoted", "quoted string followed by neither SP nor ')': unescaped DQUOTE inside?", self.i, self.b[max(0, self.i - 40) : self.i + 10])
             raise WireError("syntax", "expected SP or ')' in list", self.i, self.b[max(0, self.i - 30) : self.i + 10])
@@ -282,7 +284,7 @@ def _resp_text(p):
         if start < eol and p.b[start] == 0x20:
             start += 1
         elif start < eol:
-            p.diag.append("no SP after response code")
+            raise WireError("syntax", "no SP between the response code and the text", start, p.b[max(0, start - 30) : start + 10])
     _check_text(p, p.i, eol)
     text = p.b[start:eol].decode("latin-1")
     p.i = eol + 2
@@ -511,12 +513,20 @@ def _fetch_items(p):
             items.append((uname, p.nstring()))
         elif uname == "ENVELOPE":
             p.sp()
-            v = p.value()
+            p.adjacent_ok = True
+            try:
+                v = p.value()
+            finally:
+                p.adjacent_ok = False
             check_envelope(p, v)
             items.append((uname, v))
         elif uname in ("BODY", "BODYSTRUCTURE"):
             p.sp()
-            v = p.value()
+            p.adjacent_ok = True
+            try:
+                v = p.value()
+            finally:
+                p.adjacent_ok = False
             check_body(p, v, ext=(uname == "BODYSTRUCTURE"))
             items.append((uname, v))
         else:
